@@ -56,9 +56,28 @@ UNITS = [
                          ensures=[("def", "s.root == state.root && s.data == Data::<T>::Value(T::from_i64_spec(count))")])}),
     Unit(name="value", file=F, fn="value", order=51, serves=["C10"],
          ensures=[("def", "r.root == state.root && !(r.data is Refs) && denote(r.data) == data_value(state.data)")]),
-    Unit(name="regex", file=F, fn="regex", order=51, status="assumed", serves=["C10"],
-         why_assumed="regex crate and String building (prepare_regex): engine trusted; anchoring checked by the bounded back end (regex.anchoring)",
+    Unit(name="prepare_regex", file=F, fn="prepare_regex", order=51, status="assumed", serves=["C10"],
+         why_assumed="format! / str::contains / str::replace — no string reasoning in Verus; the anchoring of match (`^(?:p)$`) and the pattern text are checked by the bounded back end (regex.match, regex.search)",
+         ensures=[("def", "r@ == prepared_pattern(pattern@, substring)")]),
+    # the regex crate is an opaque dependency (contracts/helpers.rs: Regex::new / is_match / find assumed over uninterpreted kernels); what is
+    # proved: which operand is the subject and which the pattern, non-strings and nothing -> false, an invalid pattern -> false, search = find,
+    # match = is_match of the prepared pattern
+    Unit(name="regex", calls=["prepare_regex", "State::bool"], file=F, fn="regex", order=51, serves=["C10"],
          requires=[("singular", "!(lhs.data is Refs) && !(rhs.data is Refs)")],
          ensures=[("def", "r.root == lhs.root && r.data == Data::<'a, T>::Value(T::from_bool_spec("
-                         "match (str_of(denote(lhs.data)), str_of(denote(rhs.data))) { (Some(s), Some(p)) => regex_match(s, p, substr), _ => false }))")]),
+                         "match (str_of(denote(lhs.data)), str_of(denote(rhs.data))) { (Some(s), Some(p)) => regex_match(s, p, substr), _ => false }))")],
+         body_prefix="let ghost root0 = lhs.root;",
+         closures={
+             1: Cl(expect="State::bool(b, lhs.root)", types=["bool"], ret="(o: State<'a, T>)",
+                   ensures=[("def", "o.root == root0 && o.data == Data::<'a, T>::Value(T::from_bool_spec(b))")]),
+             2: Cl(expect="r.is_match(v)", ret="(b: bool)",
+                   ensures=[("def", "b == (if substr { re_find(r.pattern(), v@) } else { re_is_match(r.pattern(), v@) })")]),
+             3: Cl(expect="inner.as_str()", ret="(o: Option<String>)",
+                   ensures=[("def", "match (o, str_of(denote(s.data))) { (Some(x), Some(y)) => x@ == y, (None, None) => true, _ => false }")]),
+             4: Cl(expect="s.to_string()", types=["&str"], ret="(x: String)", ensures=[("copy", "x@ == s@")]),
+             5: Cl(expect="s.to_string()", types=["&str"], ret="(x: String)", ensures=[("copy", "x@ == s@")]),
+             6: Cl(expect="to_state(regex(", types=["Regex"], ret="(o: State<'a, T>)",
+                   ensures=[("def", "o.root == root0 && o.data == Data::<'a, T>::Value(T::from_bool_spec("
+                                    "if substr { re_find(re.pattern(), lhs@) } else { re_is_match(re.pattern(), lhs@) }))")]),
+         }),
 ]
